@@ -105,6 +105,247 @@ theorem romCertV1_bounds (co : CryptoOps) (renv : Spec.MbiRom.RomEnv) (body : By
     simp only
     omega
 
+/-! ### the ROM's answer for any body with the same certificate word and certificate block -/
+
+section walk
+variable {co : CryptoOps} {c : Cls} {cfg : Cfg}
+
+theorem romSignedV1_gen (k : ClsF c) (g : CfgF c cfg) (renv : Spec.MbiRom.RomEnv) (certs : List (Nat × Nat))
+    (table : List Bytes) (hrom : RomCertV1OK co renv cfg.cert certs table) (body : Bytes) (stripped : Nat)
+    (hlen : body.length = (rawOf c cfg).length + cfg.sigLen)
+    (hw : rd32 body ivtCrcCertificateOffset = appLen c cfg)
+    (hat : slice body (appLen c cfg) (appLen c cfg + cfg.cert.length) = certInImage c cfg) :
+    ∃ p, certs.getLast? = some p ∧ p.1 + p.2 ≤ cfg.cert.length
+      ∧ Spec.MbiRom.romSignedV1 co renv body stripped
+          = .ok { stripped := stripped
+                  obligations := [.x509Chain (certs.map (fun p => (appLen c cfg + p.1, p.2))) table,
+                                  .rsaByCert (appLen c cfg + p.1, p.2) (totalLenForCertBlock c cfg).toNat]
+                  authenticated := [(0, body.length + stripped)] } := by
+  obtain ⟨hne, hwalk⟩ := hrom
+  have hat' : certAt body (certSetImageLength cfg.cert (totalLenForCertBlock c cfg).toNat) (appLen c cfg) := by
+    unfold certAt
+    rw [spec_sub, ← certInImage_eq cfg k, certInImage_length k g]
+    exact hat
+  obtain ⟨ci, h1, h2, h3, h4, h5⟩ := hwalk _ _ _ hat' (il_bound k g)
+  obtain ⟨p, hp⟩ : ∃ p, certs.getLast? = some p := by
+    cases hl : certs.getLast? with
+    | none => exact absurd (List.getLast?_eq_none_iff.1 hl) hne
+    | some p => exact ⟨p, rfl⟩
+  have hb : p.1 + p.2 ≤ cfg.cert.length := by
+    have := romCertV1_bounds co renv body _ ci h1 (appLen c cfg + p.1, p.2) (by
+      rw [h2]; exact List.mem_map.2 ⟨p, List.mem_of_getLast? hp, rfl⟩)
+    rw [h5] at this
+    simp only at this
+    omega
+  have hlast : (certs.map (fun p => (appLen c cfg + p.1, p.2))).getLast? = some (appLen c cfg + p.1, p.2) := by
+    rw [List.getLast?_map, hp]; rfl
+  have hw' : Spec.MbiRom.rd32 body Spec.MbiRom.offCrcOrCert = appLen c cfg := hw
+  have c1 : decide (appLen c cfg ≥ Spec.MbiRom.ivtSize ∧ (appLen c cfg % 4 == 0) = true) = true := by
+    have h1 : 56 ≤ appLen c cfg := appLen_ge k g
+    have := appLen_mod4 k cfg
+    have h2 : Spec.MbiRom.ivtSize = 56 := rfl
+    simp only [h2, decide_eq_true_eq, beq_iff_eq]; omega
+  have c2 : decide (ci.blockEnd ≤ ci.imageLength ∧ ci.imageLength < body.length) = true := by
+    have := g.hSigLen
+    rw [h4, h5, hlen, raw_length k g, legacyLen_nat cfg k]
+    simp only [decide_eq_true_eq]; omega
+  rw [h4] at c2
+  refine ⟨p, hp, hb, ?_⟩
+  unfold Spec.MbiRom.romSignedV1
+  simp only [hw', need_ok c1, h1, need_ok c2, bind, Except.bind, h2, hlast, pure, Except.pure, h3, h4]
+
+theorem appLen_le_raw (k : ClsF c) (g : CfgF c cfg) : appLen c cfg ≤ (rawOf c cfg).length := by
+  simp only [rawOf, List.length_append, appLen_blocks k g]; omega
+
+/-- a changed application byte of the body that is accepted with the RSA obligation holding is a forgery -/
+theorem body_forgery (k : ClsF c) (g : CfgF c cfg) (renv : Spec.MbiRom.RomEnv) (certs : List (Nat × Nat))
+    (table : List Bytes) (hrom : RomCertV1OK co renv cfg.cert certs table)
+    (alg : SigAlg) (sk : PrivKey) (r : Rand) (certPub : Bytes → PubKey)
+    (hpub : ∀ last, certs.getLast? = some last → certPub (slice (certInImage c cfg) last.1 (last.1 + last.2)) = co.pubOf sk)
+    (hs : (co.sign alg sk (rawOf c cfg) r).length = cfg.sigLen)
+    (j : Nat) (y : UInt8) (hj : j < appLen c cfg) (hlw : ¬ layoutWord j)
+    (hne : (rawOf c cfg ++ co.sign alg sk (rawOf c cfg) r)[j]? ≠ some y) (stripped : Nat) (a : Spec.MbiRom.Accepted)
+    (hacc : Spec.MbiRom.romSignedV1 co renv ((rawOf c cfg ++ co.sign alg sk (rawOf c cfg) r).set j y) stripped = .ok a)
+    (hob : ∀ ob ∈ a.obligations,
+      holdsRsa co alg certPub ((rawOf c cfg ++ co.sign alg sk (rawOf c cfg) r).set j y) ob) : Break co := by
+  have hjr : j < (rawOf c cfg).length := Nat.lt_of_lt_of_le hj (appLen_le_raw k g)
+  have hlw' : j < 0x20 ∨ 0x2C ≤ j := by
+    unfold layoutWord at hlw; omega
+  generalize hsig : co.sign alg sk (rawOf c cfg) r = sig at *
+  have hset : (rawOf c cfg ++ sig).set j y = (rawOf c cfg).set j y ++ sig := by
+    rw [List.set_append, if_pos hjr]
+  have hne' : (rawOf c cfg)[j]? ≠ some y := by
+    rwa [List.getElem?_append_left hjr] at hne
+  obtain ⟨p, hp, hb, hok⟩ := romSignedV1_gen k g renv certs table hrom ((rawOf c cfg ++ sig).set j y) stripped
+    (by rw [List.length_set, List.length_append, hs])
+    (by rw [rd32_set _ _ _ _ (by simp only [ivtCrcCertificateOffset]; omega)]; exact body_word k g sig)
+    (by rw [slice_set _ _ _ _ _ (Or.inl hj)]; exact raw_cert k g sig)
+  rw [hok] at hacc
+  simp only [Except.ok.injEq] at hacc
+  subst hacc
+  have hv := hob (.rsaByCert (appLen c cfg + p.1, p.2) (totalLenForCertBlock c cfg).toNat) (by simp)
+  simp only [holdsRsa, spec_sub] at hv
+  have e1 : slice ((rawOf c cfg ++ sig).set j y) (appLen c cfg + p.1) (appLen c cfg + p.1 + p.2)
+      = slice (certInImage c cfg) p.1 (p.1 + p.2) := by
+    rw [slice_set _ _ _ _ _ (Or.inl (by omega))]
+    have e : rawOf c cfg ++ sig = (ivtApp c cfg ++ relocBlk cfg) ++ certInImage c cfg ++ (cfg.tz.bytes ++ sig) := by
+      simp only [rawOf, List.append_assoc]
+    rw [e, appLen_blocks k g, ← List.length_append, Nat.add_assoc]
+    exact slice_shift _ _ _ _ _ (by rw [certInImage_length k g]; exact hb)
+  have e2 : ((rawOf c cfg ++ sig).set j y).take (totalLenForCertBlock c cfg).toNat = (rawOf c cfg).set j y := by
+    rw [hset, ← raw_length k g]
+    exact List.take_left' (List.length_set ..)
+  have e3 : ((rawOf c cfg ++ sig).set j y).drop (totalLenForCertBlock c cfg).toNat = sig := by
+    rw [hset, ← raw_length k g]
+    exact List.drop_left' (List.length_set ..)
+  rw [e1, e2, e3, hpub p hp, ← hsig] at hv
+  exact Break.sigForgery alg sk _ _ r (set_ne _ j y hne' hjr) hv
+
+/-! ### `romCheck` / `romHmac` on an image with the same length and header words -/
+
+theorem romCheck_gen (hl : CryptoLaws co) (k : ClsF c) (g : CfgF c cfg) (hf : c.family = some .signedV1)
+    (ht : signedTypeOk c = true) (sig : Bytes) (hs : sig.length = cfg.sigLen) (rkth : Bytes) (img : Bytes)
+    (hlen : img.length = (imgOf co c cfg sig).length)
+    (hflags : rd32 img ivtImageFlagsOffset = flagsOf c cfg)
+    (htotal : rd32 img ivtImageLengthOffset = rd32 (imgOf co c cfg sig) ivtImageLengthOffset) :
+    Spec.MbiRom.romCheck co (romEnvOf c rkth cfg.hmacKey) img
+      = (if c.has .Mbi_MixinHmac then
+          (Spec.MbiRom.romHmac co (romEnvOf c rkth cfg.hmacKey) img >>= fun v =>
+            Spec.MbiRom.romSignedV1 co (romEnvOf c rkth cfg.hmacKey) v.1 v.2.1)
+         else Spec.MbiRom.romSignedV1 co (romEnvOf c rkth cfg.hmacKey) img 0) := by
+  have hfl : Spec.MbiRom.rd32 img Spec.MbiRom.offFlags = flagsOf c cfg := hflags
+  have hty : flagsOf c cfg &&& Spec.MbiRom.maskImageType = c.imageType := flags_type k g
+  have htz : (flagsOf c cfg >>> Spec.MbiRom.shiftTzType) &&& Spec.MbiRom.maskTzType = cfg.tz.tag := (flags_get k g).1
+  have htot : Spec.MbiRom.rd32 img Spec.MbiRom.offTotalLength = (if c.zeroTotalLength then 0 else img.length) := by
+    have : Spec.MbiRom.rd32 img Spec.MbiRom.offTotalLength = rd32 img ivtImageLengthOffset := rfl
+    rw [this, htotal, imgOf_head co k g _ _ (by decide), (ivtApp_words k g).1, hlen, imgOf_length_total hl k g sig hs]
+  have c0 : decide (img.length ≥ Spec.MbiRom.ivtSize) = true := by
+    have h1 : 56 ≤ appLen c cfg := appLen_ge k g
+    have h2 : Spec.MbiRom.ivtSize = 56 := rfl
+    rw [hlen, imgOf_length hl k g, h2, decide_eq_true_eq]; omega
+  have c1 : (if (romEnvOf c rkth cfg.hmacKey).zeroTotalLength = true
+      then (if c.zeroTotalLength then 0 else img.length) == 0
+      else (if c.zeroTotalLength then 0 else img.length) == img.length) = true := by
+    have : (romEnvOf c rkth cfg.hmacKey).zeroTotalLength = c.zeroTotalLength := rfl
+    rw [this]; cases c.zeroTotalLength <;> simp
+  have c2 : decide ((cfg.tz.tag == Spec.MbiRom.tzEnabled) = true ∨ (cfg.tz.tag == Spec.MbiRom.tzCustom) = true
+      ∨ (cfg.tz.tag == Spec.MbiRom.tzDisabled) = true) = true := by
+    cases cfg.tz <;> simp [TzCfg.tag, tzEnabled, tzCustom, tzDisabled, Spec.MbiRom.tzEnabled, Spec.MbiRom.tzCustom,
+      Spec.MbiRom.tzDisabled]
+  have hck : (romEnvOf c rkth cfg.hmacKey).certKind = .v1 := by simp [romEnvOf, k.hV1]
+  have hhh : (romEnvOf c rkth cfg.hmacKey).hmacHeader = c.has .Mbi_MixinHmac := rfl
+  unfold Spec.MbiRom.romCheck
+  simp only [need_ok c0, hfl, hty, htz, htot, need_ok c1, need_ok c2, bind, Except.bind, hck, hhh]
+  have hT := type_cases k hf ht
+  have e1 : (c.imageType == Spec.MbiRom.typePlain) = false := by
+    rcases hT with h | h | h <;> rw [h] <;> rfl
+  have e2 : ¬ ((c.imageType == Spec.MbiRom.typeCrcRam) = true ∨ (c.imageType == Spec.MbiRom.typeCrcXip) = true) := by
+    rcases hT with h | h | h <;> rw [h] <;> decide
+  have e3 : (c.imageType == Spec.MbiRom.typeSignedRam) = true ∨ (c.imageType == Spec.MbiRom.typeSignedXip) = true
+      ∨ (c.imageType == Spec.MbiRom.typeSignedXipNxp) = true := by
+    rcases hT with h | h | h <;> rw [h] <;> decide
+  simp only [e1, Bool.false_eq_true, if_false, if_neg e2, if_pos e3]
+
+theorem romHmac_gen (hl : CryptoLaws co) (k : ClsF c) (g : CfgF c cfg) (sig : Bytes) (hH : c.has .Mbi_MixinHmac = true)
+    (rkth : Bytes) (key : Bytes) (hk : cfg.hmacKey = some key) (img : Bytes)
+    (hlen : img.length = (imgOf co c cfg sig).length)
+    (hflags : rd32 img ivtImageFlagsOffset = flagsOf c cfg)
+    (hmac64 : slice img hmacOffset (hmacOffset + hmacSize) = romMac co c cfg key) :
+    Spec.MbiRom.romHmac co (romEnvOf c rkth cfg.hmacKey) img
+      = (if romMac co c cfg key == hmac co .sha256 (ecbEnc co key Spec.MbiRom.hmacKeyDerivation) (img.take hmacOffset)
+         then .ok (img.take hmacOffset ++ img.drop (hmacOffset + (hmacSize + (cfg.keyStore.getD []).length)),
+                   hmacSize + (cfg.keyStore.getD []).length, cfg.keyStore.isSome)
+         else .error "hmac mismatch") := by
+  have hkl := (g.hHk key hk).1
+  have hks : (Spec.MbiRom.rd32 img Spec.MbiRom.offFlags &&& Spec.MbiRom.flagKeyStore != 0) = cfg.keyStore.isSome := by
+    have : Spec.MbiRom.rd32 img Spec.MbiRom.offFlags = rd32 img ivtImageFlagsOffset := rfl
+    rw [this, hflags, ← (flags_get k g).2.2.2.1]
+    rfl
+  have hstrip : Spec.MbiRom.hmacSize + (if cfg.keyStore.isSome = true then Spec.MbiRom.keyStoreSize else 0)
+      = hmacSize + (cfg.keyStore.getD []).length := by
+    have := ksLen_eq g
+    unfold ksLen at this
+    rw [this]; rfl
+  have c1 : decide (img.length ≥ hmacOffset + (hmacSize + (cfg.keyStore.getD []).length)) = true := by
+    have h2 : (appData cfg).length ≥ 64 := g.hAppH hH
+    have h3 := imgOf_length hl k g sig
+    have h4 : shift c cfg = hmacSize + (cfg.keyStore.getD []).length := by rw [shift, hH]; rfl
+    have h5 : hmacOffset = 64 := rfl
+    rw [appLen_eq cfg k, h4] at h3
+    rw [hlen, h3, h5, decide_eq_true_eq]; omega
+  have c2 : (key.length == Spec.MbiRom.userKeySize) = true := by
+    rw [hkl]; rfl
+  have hm : Spec.MbiRom.sub img hmacOffset (hmacOffset + Spec.MbiRom.hmacSize) = romMac co c cfg key := hmac64
+  have huk : (romEnvOf c rkth cfg.hmacKey).userKey = some key := hk
+  have ho : Spec.MbiRom.hmacOffset = hmacOffset := rfl
+  unfold Spec.MbiRom.romHmac
+  simp only [hks, hstrip, need_ok c1, huk, need_ok c2, hm, bind, Except.bind, pure, Except.pure, ho]
+  cases hb : (romMac co c cfg key == hmac co .sha256 (ecbEnc co key Spec.MbiRom.hmacKeyDerivation) (img.take hmacOffset))
+  · simp [Spec.MbiRom.need]
+  · simp [Spec.MbiRom.need]
+
+/-- with HMAC: a changed application byte behind the inserted block -/
+theorem hmac_body_forgery (hl : CryptoLaws co) (k : ClsF c) (g : CfgF c cfg) (hf : c.family = some .signedV1)
+    (ht : signedTypeOk c = true) (hH : c.has .Mbi_MixinHmac = true) (rkth : Bytes) (certs : List (Nat × Nat))
+    (table : List Bytes) (hrom : RomCertV1OK co (romEnvOf c rkth cfg.hmacKey) cfg.cert certs table)
+    (alg : SigAlg) (sk : PrivKey) (r : Rand) (certPub : Bytes → PubKey)
+    (hpub : ∀ last, certs.getLast? = some last → certPub (slice (certInImage c cfg) last.1 (last.1 + last.2)) = co.pubOf sk)
+    (hs : (co.sign alg sk (rawOf c cfg) r).length = cfg.sigLen) (key : Bytes) (hk : cfg.hmacKey = some key)
+    (i : Nat) (y : UInt8) (hi1 : hmacOffset + (hmacSize + (cfg.keyStore.getD []).length) ≤ i)
+    (hi2 : i - (hmacSize + (cfg.keyStore.getD []).length) < appLen c cfg)
+    (hne : (imgOf co c cfg (co.sign alg sk (rawOf c cfg) r))[i]? ≠ some y) (a : Spec.MbiRom.Accepted)
+    (hacc : Spec.MbiRom.romCheck co (romEnvOf c rkth cfg.hmacKey)
+      ((imgOf co c cfg (co.sign alg sk (rawOf c cfg) r)).set i y) = .ok a)
+    (hob : ∀ ob ∈ a.obligations, holdsRsa co alg certPub
+      (Mbi.bodyOf c cfg ((imgOf co c cfg (co.sign alg sk (rawOf c cfg) r)).set i y)) ob) : Break co := by
+  generalize hsig : co.sign alg sk (rawOf c cfg) r = sig at *
+  generalize hS : hmacSize + (cfg.keyStore.getD []).length = S at *
+  have hS32 : 32 ≤ S := by rw [← hS]; simp only [hmacSize]; omega
+  have ho : hmacOffset = 64 := rfl
+  have hTl := head_length k g hH
+  have hIl : (insOf co c cfg).length = S := by rw [ins_length hl g hH, hS]
+  have hdropE : (imgOf co c cfg sig).drop (hmacOffset + S) = restOf c cfg sig := by
+    rw [← hS, ← Nat.add_assoc]; exact img_drop_ins hl k g sig hH
+  -- the body of the changed image
+  have hbody : ((imgOf co c cfg sig).set i y).take hmacOffset ++ ((imgOf co c cfg sig).set i y).drop (hmacOffset + S)
+      = (rawOf c cfg ++ sig).set (i - S) y := by
+    rw [List.take_set_of_le (by omega), img_take hl k g sig hH, List.drop_set, if_neg (by omega), hdropE,
+      ← head_rest, List.set_append, if_neg (by rw [hTl]; omega), hTl,
+      show i - S - hmacOffset = i - (hmacOffset + S) by omega]
+  have hfl : rd32 ((imgOf co c cfg sig).set i y) ivtImageFlagsOffset = flagsOf c cfg := by
+    rw [rd32_set _ _ _ _ (by simp only [ivtImageFlagsOffset]; omega)]
+    exact img_flags co k g _
+  rw [romCheck_gen hl k g hf ht _ hs rkth _ (List.length_set ..) hfl
+    (rd32_set _ _ _ _ (by simp only [ivtImageLengthOffset]; omega))] at hacc
+  simp only [hH, if_true] at hacc
+  have hm : slice ((imgOf co c cfg sig).set i y) hmacOffset (hmacOffset + hmacSize) = romMac co c cfg key := by
+    rw [slice_set _ _ _ _ _ (Or.inr (by simp only [hmacSize]; omega))]; exact img_mac hl k g sig hH key hk
+  rw [romHmac_gen hl k g sig hH rkth key hk _ (List.length_set ..) hfl hm, hS,
+    List.take_set_of_le (by omega), img_take hl k g sig hH] at hacc
+  have hbeq : (romMac co c cfg key == hmac co .sha256 (ecbEnc co key Spec.MbiRom.hmacKeyDerivation)
+      ((ivtApp c cfg).take hmacOffset)) = true := by simp [romMac]
+  rw [hbeq] at hacc
+  simp only [if_true, bind, Except.bind] at hacc
+  rw [← img_take hl k g sig hH, ← List.take_set_of_le (a := y) (l := imgOf co c cfg sig) (show hmacOffset ≤ i by omega),
+    hbody] at hacc
+  have hb2 : Mbi.bodyOf c cfg ((imgOf co c cfg sig).set i y) = (rawOf c cfg ++ sig).set (i - S) y := by
+    unfold Mbi.bodyOf
+    rw [if_pos hH, Nat.add_assoc, hS]; exact hbody
+  rw [hb2] at hob
+  have hne' : (rawOf c cfg ++ sig)[i - S]? ≠ some y := by
+    have e1 : (imgOf co c cfg sig)[i]? = (restOf c cfg sig)[i - (hmacOffset + S)]? := by
+      rw [img_parts, List.getElem?_append_right (by rw [List.length_append, hTl, hIl]; exact hi1),
+        List.length_append, hTl, hIl]
+    have e2 : (rawOf c cfg ++ sig)[i - S]? = (restOf c cfg sig)[i - (hmacOffset + S)]? := by
+      rw [← head_rest, List.getElem?_append_right (by rw [hTl]; omega), hTl,
+        show i - S - hmacOffset = i - (hmacOffset + S) by omega]
+    rw [e2, ← e1]; exact hne
+  subst hsig
+  exact body_forgery k g _ certs table hrom alg sk r certPub hpub hs (i - S) y hi2
+    (by unfold layoutWord; omega) hne' S a hacc hob
+
+end walk
+
 end RomNegV1
 
 /-- without HMAC: the body is the image -/
@@ -119,7 +360,26 @@ theorem tamper_rejected_signedV1 (h : Hyp co env c cfg signer) (hf : c.family = 
       ∧ ∀ (i : Nat) (y : UInt8), i < appLen c cfg → ¬ layoutWord i → e[i]? ≠ some y →
           ∀ a, Spec.MbiRom.romCheck co (romEnvOf c rkth cfg.hmacKey) (e.set i y) = .ok a →
             (∀ ob ∈ a.obligations, holdsRsa co alg certPub (e.set i y) ob) → Break co := by
-  sorry
+  have k := SignedV1.clsF h.hcls hf
+  have g := SignedV1.cfgF k h.hcfg
+  subst hsigner
+  have hs : (co.sign alg sk (SignedV1.rawOf c cfg) r).length = cfg.sigLen := h.hsig (SignedV1.rawOf c cfg)
+  have hE : SignedV1.imgOf co c cfg (co.sign alg sk (SignedV1.rawOf c cfg) r)
+      = SignedV1.rawOf c cfg ++ co.sign alg sk (SignedV1.rawOf c cfg) r := by
+    have hb := RomV1.body_eq h.hlaws k g (co.sign alg sk (SignedV1.rawOf c cfg) r)
+    unfold Mbi.bodyOf at hb
+    rw [hh] at hb
+    simpa using hb
+  refine ⟨SignedV1.imgOf co c cfg (co.sign alg sk (SignedV1.rawOf c cfg) r), SignedV1.export_eq _ k g, ?_⟩
+  intro i y hi hlw hne a hacc hob
+  have hlw' : i < 0x20 ∨ 0x2C ≤ i := by unfold layoutWord at hlw; omega
+  rw [RomNegV1.romCheck_gen h.hlaws k g hf ht _ hs rkth _ (List.length_set ..)
+    (by rw [RomNegV1.rd32_set _ _ _ _ (by simp only [ivtImageFlagsOffset]; omega)]
+        exact SignedV1.img_flags co k g _)
+    (RomNegV1.rd32_set _ _ _ _ (by simp only [ivtImageLengthOffset]; omega))] at hacc
+  simp only [hh, Bool.false_eq_true, if_false] at hacc
+  rw [hE] at hacc hob hne
+  exact RomNegV1.body_forgery k g _ certs table hrom alg sk r certPub hpub hs i y hi hlw hne 0 a hacc hob
 
 /-- with HMAC: the first 64 bytes are authenticated by the HMAC alone -/
 theorem tamper_rejected_hmac_header (h : Hyp co env c cfg signer) (hf : c.family = some .signedV1) (ht : signedTypeOk c = true)
@@ -129,7 +389,36 @@ theorem tamper_rejected_hmac_header (h : Hyp co env c cfg signer) (hf : c.family
     ∃ e, exportImage co c cfg signer = .ok e
       ∧ ∀ (i : Nat) (y : UInt8), i < hmacOffset → ¬ layoutWord i → e[i]? ≠ some y →
           ∀ a, Spec.MbiRom.romCheck co (romEnvOf c rkth cfg.hmacKey) (e.set i y) = .ok a → Break co := by
-  sorry
+  have k := SignedV1.clsF h.hcls hf
+  have g := SignedV1.cfgF k h.hcfg
+  obtain ⟨key, hk, _⟩ := RomV1.hmacKey_some g hh
+  have hs := h.hsig (SignedV1.rawOf c cfg)
+  refine ⟨_, SignedV1.export_eq signer k g, ?_⟩
+  generalize signer (SignedV1.rawOf c cfg) = sig at hs ⊢
+  intro i y hi hlw hne a hacc
+  have hlw' : i < 0x20 ∨ 0x2C ≤ i := by unfold layoutWord at hlw; omega
+  have hi' : i < 64 := hi
+  have hfl : rd32 ((SignedV1.imgOf co c cfg sig).set i y) ivtImageFlagsOffset = flagsOf c cfg := by
+    rw [RomNegV1.rd32_set _ _ _ _ (by simp only [ivtImageFlagsOffset]; omega)]
+    exact SignedV1.img_flags co k g _
+  rw [RomNegV1.romCheck_gen h.hlaws k g hf ht _ hs rkth _ (List.length_set ..) hfl
+    (RomNegV1.rd32_set _ _ _ _ (by simp only [ivtImageLengthOffset]; omega))] at hacc
+  simp only [hh, if_true] at hacc
+  rw [RomNegV1.romHmac_gen h.hlaws k g sig hh rkth key hk _ (List.length_set ..) hfl
+    (by rw [RomNegV1.slice_set _ _ _ _ _ (Or.inl hi)]; exact RomV1.img_mac h.hlaws k g sig hh key hk)] at hacc
+  have htake : ((SignedV1.imgOf co c cfg sig).set i y).take hmacOffset
+      = ((SignedV1.ivtApp c cfg).take hmacOffset).set i y := by
+    rw [List.take_set, RomV1.img_take h.hlaws k g sig hh]
+  have hT : ((SignedV1.ivtApp c cfg).take hmacOffset)[i]? ≠ some y := by
+    rw [← RomV1.img_take h.hlaws k g sig hh, List.getElem?_take, if_pos hi]; exact hne
+  rw [htake] at hacc
+  cases hb : (RomV1.romMac co c cfg key == hmac co .sha256 (ecbEnc co key Spec.MbiRom.hmacKeyDerivation)
+      (((SignedV1.ivtApp c cfg).take hmacOffset).set i y))
+  · rw [hb] at hacc; simp [bind, Except.bind] at hacc
+  · have heq := eq_of_beq hb
+    unfold RomV1.romMac at heq
+    exact Break.hmacForgery .sha256 _ _ _
+      (RomNegV1.set_ne _ i y hT (by rw [RomV1.head_length k g hh]; exact hi)) heq
 
 /-- with HMAC: application bytes behind the inserted HMAC / key-store block are covered by the signature -/
 theorem tamper_rejected_signedV1_hmac (h : Hyp co env c cfg signer) (hf : c.family = some .signedV1) (ht : signedTypeOk c = true)
@@ -145,6 +434,16 @@ theorem tamper_rejected_signedV1_hmac (h : Hyp co env c cfg signer) (hf : c.fami
            hmacOffset + strip ≤ i ∧ i - strip < appLen c cfg) → e[i]? ≠ some y →
           ∀ a, Spec.MbiRom.romCheck co (romEnvOf c rkth cfg.hmacKey) (e.set i y) = .ok a →
             (∀ ob ∈ a.obligations, holdsRsa co alg certPub (bodyOf c cfg (e.set i y)) ob) → Break co := by
-  sorry
+  have k := SignedV1.clsF h.hcls hf
+  have g := SignedV1.cfgF k h.hcfg
+  subst hsigner
+  obtain ⟨key, hk, _⟩ := RomV1.hmacKey_some g hh
+  have hs : (co.sign alg sk (SignedV1.rawOf c cfg) r).length = cfg.sigLen := h.hsig (SignedV1.rawOf c cfg)
+  refine ⟨SignedV1.imgOf co c cfg (co.sign alg sk (SignedV1.rawOf c cfg) r), SignedV1.export_eq _ k g, ?_⟩
+  intro i y hi hne a hacc hob
+  simp only at hi
+  obtain ⟨hi1, hi2⟩ := hi
+  exact RomNegV1.hmac_body_forgery h.hlaws k g hf ht hh rkth certs table hrom alg sk r certPub hpub hs key hk i y hi1 hi2
+    hne a hacc hob
 
 end SpsdkVerif.Mbi
